@@ -1000,7 +1000,7 @@ def _make_ifn(base):
             ndata = [np.ones(shape) * d for d in mdata]
             return _vector_interpolate(base, ndata)
         else:
-            return _vector_interpolate(base, ndata)
+            return _vector_interpolate(base, mdata)
 
     return ifn
 
